@@ -364,10 +364,11 @@ def make_case(cid, spec, masks=None, fmasks=None, roundtrip=False, prop="C05"):
              "src/s.go": render_src(spec, mod, pkg), "dest/d.go": render_dest(spec)}
     runs = []
     # constructors/accessors first (C15)
-    if spec["dest"]["kind"] == "new":
-        runs.append({"args": ["new", "-getset", "-type=" + spec["dname"]], "cwd": "dest"})
-    if spec["src"]["kind"] == "new":
-        runs.append({"args": ["new", "-getset", "-type=" + spec["sname"]], "cwd": "src"})
+    for side, tname in (("dest", spec["dname"]), ("src", spec["sname"])):
+        if spec[side]["kind"] == "new":
+            for e in embed_decls(spec[side]):        # embedded accessor-mode types first: their interfaces get embedded
+                runs.append({"args": ["new", "-getset", "-type=" + e["name"]], "cwd": side})
+            runs.append({"args": ["new", "-getset", "-type=" + tname], "cwd": side})
     spec["first_map_run"] = len(runs)
     # the helper struct types get their own mappers (same flags, so that the method names agree)
     helper = dict(spec, flags=dict(spec["flags"], i=False, way="both"))
@@ -692,8 +693,9 @@ def unexport(name):
     return name[:i - 1].lower() + name[i - 1:]
 
 
-def to_new(rng, spec, side, keep_exported=0.2, getonly=0.15, setonly=0.15, newmark=0.3):
-    """render one side as a `shoot new -getset` type: unexported fields with get/set directives and `new` marks"""
+def to_new(rng, spec, side, keep_exported=0.2, getonly=0.15, setonly=0.15, newmark=0.3, embed=0.0):
+    """render one side as a `shoot new -getset` type: unexported fields with get/set directives and `new` marks;
+    with probability `embed` some of the fields move into an embedded struct that is a shoot-new type itself"""
     st = spec[side]
     members = []
     for m in st["members"]:
@@ -715,6 +717,12 @@ def to_new(rng, spec, side, keep_exported=0.2, getonly=0.15, setonly=0.15, newma
     if members and rng.random() < newmark:
         for m in rng.sample(members, rng.randint(1, len(members))):
             m["new"] = True
+    if len(members) >= 2 and rng.random() < embed:
+        k = rng.randint(1, len(members) - 1)
+        inner = [dict(m, new=False, tag=None) for m in members[:k] if m.get("tag") != "-"]
+        if inner:
+            ename = "Base" if side == "src" else "Core"
+            members = [E(ST(ename, inner, "new"))] + members[k:]
     spec[side] = dict(st, kind="new", members=members)
     return spec
 
@@ -792,8 +800,8 @@ def pascal(n):
 
 
 def leaf_of_accessor(st):
-    """Pascal-cased accessor stem -> field name, for a flat accessor-mode struct"""
-    return {pascal(m["name"]): m["name"] for m in st["members"] if m["k"] == "f"}
+    """Pascal-cased accessor stem -> field name, for an accessor-mode struct (promoted accessors included)"""
+    return {pascal(m["name"]): m["name"] for _, m in leaves(st)}
 
 
 def text_writes(sp, text):
